@@ -24,9 +24,9 @@ def run(tier):
             rule="filter verdicts x filter present x code name x function x call order", describe=H.describe),
         Job("harness.c17", "mainmod", [{}], 120, bounds=dict(module_names="2 symbolic strings, length <= 9"),
             rule="string classes decided by the solver (equal to '__main__' or not)", describe=H.describe),
-        Job("harness.c17", dn, H.deffilter_shards(dn), 300 if tier == "quick" else 2400, bounds=dict(H.CFG[dn.split('_')[1]]),
+        Job("harness.c17", dn, H.deffilter_shards(dn), 300 if tier == "quick" else 600, bounds=dict(H.CFG[dn.split('_')[1]]),
             rule="one path = one composed file name x allow-list", describe=H.describe),
-        Job("harness.c02", sn, H2.step_shards(sn), 240 if tier == "quick" else 2400, bounds=dict(see="C02 step harness; filter verdict decoded from the tape"),
+        Job("harness.c02", sn, H2.step_shards(sn), 240 if tier == "quick" else 600, bounds=dict(see="C02 step harness; filter verdict decoded from the tape"),
             rule="C02 transition with the custom filter verdict symbolic", describe=H2.describe),
     ]
     return run_check(PID, tier, jobs, H.FUNCTIONS + H2.FUNCTIONS[:3], ASSUMPTIONS, pre=H2.validate_environment)
